@@ -55,11 +55,33 @@ def judgeServe (obs : String) : String :=
   | [] => "ok"
   | e :: _ => s!"violates {e}"
 
+/-- the discovery history the harness drives, as model events: `n` discoveries with distinct tokens; with `dup` a second
+    call re-using each token while the first is running; then every responder answers (own token, then a stray token). -/
+def discoverEvents (n : Nat) (dup : Bool) : List DEv :=
+  (List.range n).map (fun i => DEv.start i (10 + i))
+  ++ (if dup then (List.range n).map (fun i => DEv.start (100 + i) (10 + i)) else [])
+  ++ (List.range n).flatMap (fun i => [DEv.resp ⟨10 + i, i, i⟩, DEv.resp ⟨1000 + i, i, 500 + i⟩])
+  ++ (List.range n).map (fun i => DEv.finish i)
+
+def discoverModel (n : Nat) (dup : Bool) : String :=
+  let outs := dtrace [] (discoverEvents n dup)
+  let okc := outs.countP (fun o => match o with | .toReceiverOf id conn tag => id == conn && tag == conn && id < 100 | _ => false)
+  let dupgot := outs.countP (fun o => match o with | .toReceiverOf id _ _ => id ≥ 100 | _ => false)
+  let badc := outs.countP (fun o => match o with | .toReceiverOf id conn tag => id < 100 && !(id == conn && tag == conn) | _ => false)
+  let dflt := outs.countP (fun o => match o with | .toDefault _ _ => true | _ => false)
+  let refused := outs.countP (fun o => o == .refused)
+  if dup then s!"receiver ok {okc}/{n} bad {badc} default {dflt} refused {refused}/{n} dupgot {dupgot}"
+  else s!"receiver ok {okc}/{n} bad {badc} default {dflt}"
+
 def handle (mode : String) (line : String) : String :=
   match line.splitOn " | " with
   | [inp] =>
     if mode == "model" then
-      match keyeqModel (words inp) with
+      match words inp with
+      | ["discover", n] => match n.toNat? with | some n => discoverModel n false | none => "bad-op"
+      | ["discover", n, "dup"] => match n.toNat? with | some n => discoverModel n true | none => "bad-op"
+      | ws =>
+      match keyeqModel ws with
       | some b => if b then "1" else "0"
       | none => "n/a"
     else "bad-op"
@@ -77,6 +99,12 @@ def handle (mode : String) (line : String) : String :=
       | ["receiver", "ok", frac, "bad", b, "default", d] =>
         if frac == s!"{n}/{n}" && b == "0" && d == n then "ok"
         else s!"violates discovery routing: receiver got {frac}, {b} misrouted, {d} strays at the default handler (expected {n}/{n}, 0, {n})"
+      | _ => "violates unparsable-observation"
+    | ["discover", n, "dup"] =>
+      match words obs with
+      | ["receiver", "ok", frac, "bad", b, "default", d, "refused", rf, "dupgot", dg] =>
+        if frac == s!"{n}/{n}" && b == "0" && d == n && rf == s!"{n}/{n}" && dg == "0" then "ok"
+        else s!"violates discovery routing: receiver got {frac}, {b} misrouted, {d} strays at the default handler, {rf} duplicate-token calls refused, {dg} responses handed to a refused call (expected {n}/{n}, 0, {n}, {n}/{n}, 0)"
       | _ => "violates unparsable-observation"
     | _ => "bad-op"
   | _ => "bad-op"
